@@ -26,6 +26,14 @@ CLAIMED = {
   "Lean 4 theorems about the array-level model Model/Column.lean (trapezoid rule, IWV, CRH, pressure2height, linear interpolation) instantiated with the scalar converters regenerated from /repo by tools/py2lean: integrate_column is linear in y, additive when split at a grid point, changes sign under reversal, defaults to unit spacing, and each trapezoid is the exact interval integral of the linear interpolant (C14_segment_integral); hydrostatic IWV >= 0 for 0 <= vmr < 1 and decreasing pressure; CRH is the ratio of the pressure integrals of q and q_s (using the C09 inverses), equals 1 for a saturated profile and is linear in q; pressure2height starts at 0 and is strictly increasing for strictly decreasing pressure; the interpolant reproduces every node of a strictly increasing table.  The model is run with Float on the same inputs as the real code on every run (correspondence) and an exact-Fraction / grid-refinement oracle checks the real code.",
   "Trusted: Lean kernel + 3 standard axioms; hand-written Model/Column.lean + correspondence sampling; translator for the scalar converters.  NOT proved (refinement limits, checked numerically with error ratio ~4 per halving): convergence of hydrostatic vs general IWV, isothermal pressure2height -> (RT/g)ln(p0/p).  Axis handling of n-d arrays is exercised by the harness only.",
   "Lean 4 proof about a hand-written polymorphic model (run with Float for correspondence) + translator-regenerated scalar functions + exact oracle"),
+ "C02": ("fileset",
+  "Lean 4 theorems about the hand-written model of get_filename / the compiled template regex / parse_filename / _to_datetime_args / _retrieve_time_coverage / get_info (Model/Digits, Time, Template): zero-padded digit round trip, day-of-year and year2 (1965..2064) round trips, toMicros strictly monotone with inverse, C02_fields_recovered (every template of literals and fixed-width temporal placeholders, repeated placeholders allowed, any length: the generated name parses back to every placeholder string), C02_no_misparse (matcher soundness for the whole regex fragment incl. lazy, alternation and class items), C02_rejected, unknown/unfilled placeholder errors, C02_start_roundtrip, C02_end_full, C02_end_default, handler override.  PARTIAL: the final '+1 day' assembly of C02_end_partial and variable-width user placeholders are validated by correspondence/oracle only (exhaustive sweep of every day 1965-2064 and every midnight in the thorough tier).  The model is tied to the code by running driver drv_c02 and the real FileSet on the same templates/periods each run.",
+  "Trusted: Lean kernel + 3 standard axioms; hand-written model + correspondence sampling; Python re beyond the modelled fragment, str.format, the harness rendering of token lists to template strings.",
+  "Lean 4 proof about a hand-written executable model + differential correspondence with the implementation"),
+ "C17": ("oem",
+  "Lean 4 theorems (Mathlib Matrix / PosDef) about the matrix expressions that tools/py2lean/py2lean_matrix.py REGENERATES from typhon/retrieval/oem/{common,error}.py on every run: S = (K^T S_y^-1 K + S_a^-1)^-1, S symmetric positive definite and S <= S_a (Loewner) for ANY K incl. rank-deficient and zero, gain in n-form and m-form (push-through identity), A = G K = 1 - S S_a^-1, every eigenvalue of A real and in [0,1), A -> 1 for vanishing noise (injective K) and A -> 0 for vanishing prior (Filter.Tendsto), linearity of smoothing_error / retrieval_noise, and a guard theorem that every inverted matrix has a unit determinant (so Mathlib's junk inverse never carries a theorem).  Nothing is partial.  A breaking source change breaks a proof; the check then finds a failing input with exact-Fraction and condition-scaled double oracles.",
+  "Trusted: Lean kernel + 3 standard axioms; the matrix translator (validated each run by cross-running its exact-Fraction Python back-end against the real code); LAPACK/BLAS rounding is validated with condition-number-scaled bounds, not proved.",
+  "Lean 4 proof over matrix expressions regenerated from the source by a translator + exact-Fraction cross-run + numeric oracle"),
 }
 NOT_YET = "no Lean model built yet for this property (under construction; see DESIGN.md section 6) - not claimed rather than served by another technique"
 
